@@ -275,6 +275,11 @@ def toNode : Nat → BVal → Option JVal
         (allSome ((objItems h.count cur).map fun (k, v) => (toNode f v).map fun j => (k, j))).map .obj
       else none
 
+/-- fuel that always suffices for the readers below: nesting cannot exceed the number of bytes -/
+def fuelOf : BVal → Nat
+  | .cont bs => bs.length + 1
+  | _ => 1
+
 /-- `binn_copy` + `binn_save_header` (as `jbl_clone` + `jbl_as_buf` do): body copied behind a fresh header -/
 def copy (bs : Bytes) : Option Bytes :=
   match parseHeader bs with
